@@ -512,6 +512,15 @@ func runC13(r *Report, tier string) {
 	}
 	c05Buckets(r, "R13.2")
 	iv := P.ivCheck()
+	for _, T := range P.structureTypes() {
+		if D := P.methodOf(T, "UnmarshalCBOR"); D != nil {
+			if sts := P.receiverStores(D); len(sts) == 1 {
+				checkDecoderLayer(r, "R13.2", T.Obj().Name(), sts[0], nil, iv)
+			} else {
+				r.ob("R13.2", T.Obj().Name()+":stored-value", D, nil, "the decoder stores exactly one whole value").fail(fmt.Sprintf("%d stores to the receiver", len(sts)))
+			}
+		}
+	}
 	ne := 0
 	for _, T := range P.structureTypes() {
 		enc := P.methodOf(T, "MarshalCBOR")
